@@ -31,8 +31,10 @@
 
   Link to `Props/C29.lean`. `C29.phase_offset_is_conjugation` states, on tree vectors over any `LawfulCx` scalar ring,
   `H(φ+θ) v = P_u (H(φ) (P_ū v))` with `P_u = phase u = ⊗_q diag(1, u)`, `u = e^{iθ}`, `u ū = 1`;
-  `C29.offset_fixes_ground_state` is `P_u |g…g⟩ = |g…g⟩`. `Props/C29ExpLink.lean` (if present in the tree) transports these
-  to `Matrix (Fin n → Bool) (Fin n → Bool) ℂ` and instantiates the theorems below; the theorems here are stated for
+  `C29.offset_fixes_ground_state` is `P_u |g…g⟩ = |g…g⟩`. `Props/C29ExpLink.lean` transports these to dense matrices
+  `Matrix (Idx n) (Idx n) ℂ` (`hamMatrix_shift`: `H(φ+θ) = D H(φ) Dᴴ`, `D` diagonal with unit-modulus entries fixing `|g…g⟩`)
+  and instantiates the theorems below for the model's Hamiltonian (`ideal_results_invariant_under_phase_offset`,
+  `ideal_energy_invariant_under_phase_offset`, `ideal_negation_is_time_reversal`). The theorems here are stated for
   arbitrary `H`, `H' = V H W`, so they do not depend on that bridge.
 -/
 import EmuVerif.Proofs.IdealUnitary
